@@ -313,8 +313,37 @@ def run(ctx):
     ctx.oblige("correspondence:pest-shapes-inside-shape-analysis", not mism and len(items) > 0,
                "observed (rule, children) outside children_shape: %s" % [items[j] for j in mism[:3]])
 
-    # ---- coverage
+    # ---- model side: the front-matter guard (model/FrontMatter.v on the generated trim set) vs. the real verdict
     dev = all_results["dev"]
+    fm_items = []
+    for i, (m_, t, o_) in enumerate(cases):
+        f = dev.get(i, {}).get("FM", "-")
+        if m_ == "D" and f in ("0", "1") and len(t) < 4000 and (o_.startswith("frontmatter") or len(fm_items) < 4000):
+            fm_items.append((i, [ord(ch) for ch in t], f == "1"))
+
+    def render_fm(chunk):
+        rows = ["(%s, %s)" % (vlib.coq_list(cps), "true" if exp else "false") for (_i, cps, exp) in chunk]
+        return ("Definition cases : list (list N * bool) := %s.\n"
+                "Definition chk (c : list N * bool) : bool :=\n"
+                "  Bool.eqb (has_unterminated_front_matter fm_trim fm_fences fm_line_seps fm_skip_prefix (fst c)) (snd c).\n"
+                "Eval vm_compute in (mismatches chk cases).\n" % vlib.coq_list(rows))
+    header_fm = ("From Coq Require Import List NArith Bool.\nFrom Aranya Require Import base.Harness model.FrontMatterSyntax model.FrontMatter gen.GenFrontMatter.\n"
+                 "Import ListNotations.\nOpen Scope N_scope.\n")
+    outs, chunks = vlib.coq_eval_sharded(ctx, "c27_frontmatter", header_fm, fm_items, render_fm, shard=400)
+    fm_mism, base, bad_eval = [], 0, None
+    for (rc, o), ch in zip(outs, chunks):
+        v = vlib.parse_coq_value(o) if rc == 0 else None
+        if v is None:
+            bad_eval = o[-1500:]
+            break
+        fm_mism += [base + j for j in v]
+        base += len(ch)
+    ctx.log("front-matter guard: model vs implementation on %d documents" % len(fm_items))
+    ctx.oblige("correspondence:front-matter-model-eval", bad_eval is None, bad_eval or "")
+    ctx.oblige("correspondence:front-matter-guard-model=impl", not fm_mism and len(fm_items) > 0,
+               "guard verdict differs on %s" % [(repr(cases[fm_items[j][0]][1][:80]), fm_items[j][2]) for j in fm_mism[:3]])
+
+    # ---- coverage
     by_origin = {}
     for i, (m, t, o) in enumerate(cases):
         d = dev.get(i)
@@ -344,6 +373,7 @@ def run(ctx):
         "nesting_probes": [{"kind": k, "profile": p, "depth": d, "status": s} for (k, p, d, s) in probes],
         "nesting_thresholds_measured": thresholds or None,
         "shape_pairs_observed": len(shapes),
+        "front_matter_documents_model_vs_impl": {"compared": len(fm_items), "guard_rejected": sum(1 for x in fm_items if x[2])},
         "samples": [{"mode": m, "origin": o, "text": t[:200], "dev": dev.get(i)} for i, (m, t, o) in list(enumerate(cases))[400:403]],
     })
     ctx.assumptions += [
